@@ -12,6 +12,28 @@ from mc import engine  # noqa: E402
 engine.install()
 
 ALL = [f"C{i:02d}" for i in range(1, 21)]
+TECH = {
+    "C01": "stateless model checking of the real generators: DFS over every resolution of random.shuffle (distinct stub arrangements) for every input of a bounded box",
+    "C02": "stateless model checking of the real generators: DFS over every shuffle resolution x exhaustive motif-shape catalogue",
+    "C03": "stateless model checking with exact probabilities: the full RNG choice tree gives the exact output distribution, compared with the configuration-model measure",
+    "C04": "exhaustive enumeration of inputs (all generator outputs over all RNG resolutions + all hand-enumerated edge lists in a box) against an independent description",
+    "C05": "stateless model checking of the real sampler: DFS over every weighted draw and every patch position with exact probabilities",
+    "C06": "exhaustive input grids; sampling mode by DFS over every RNG resolution with exact expectation",
+    "C07": "exhaustive input grid against a reference model (own enumeration of splits); short histories of resolve_degree",
+    "C08": "exhaustive enumeration of all covers in a box against a reference model",
+    "C09": "stateless model checking of the real EECC: DFS over every tie-break sequence for every labelled graph of a bounded box",
+    "C10": "stateless model checking of the real MPCC: every alternative order at the shuffle point (exhaustive per size class up to 6 members) for every graph of a bounded box",
+    "C11": "explicit-state model checking: state graph of accepted swaps over every clean network of a box + scenario closures by BFS; each transition = real rewire() under the RNG explorer with a deviation bound",
+    "C12": "explicit-state model checking as C11 under restricted targets, plus the exact accepted-swap Markov chain (one proposal iteration explored completely via a guarded hook) compared with a harness-side reference chain",
+    "C13": "exhaustive enumeration of all clean networks of a box x explicit call histories on one extractor against a from-scratch count",
+    "C14": "exhaustive input grids and all clean networks of a box; every identity evaluated from its definition",
+    "C15": "exhaustive motif box with symbolic arguments (polynomial identity against a 2^|E| enumeration) + explicit-state BFS to fixpoint over evaluator cache states",
+    "C16": "polynomial identity against exhaustive 2^|E| enumeration; counts against exhaustive enumeration of all labelled graphs",
+    "C17": "exhaustive enumeration of cover-labelled networks against a reference fixed-point solver; explicit-state BFS over query histories",
+    "C18": "stateless model checking with exact probabilities: 2^|E| resolutions of the per-edge uniform comparison (symbolic uniform)",
+    "C19": "bounded exhaustive evaluation over a parameter grid (no state space; level = exploration)",
+    "C20": "explicit-state model checking: BFS to fixpoint over the real DrawSet against a reference set, every RNG resolution of draw()",
+}
 NA = {}
 
 checks = []
@@ -30,9 +52,9 @@ for pid in ALL:
         "replay_cmd_template": f"./check {pid} --replay {{path}}",
         "engine": getattr(mod, "ENGINE", "rng-explorer"),
         "level_claimed": {"category": mod.LEVEL, "text": getattr(mod, "LEVEL_TEXT", mod.RULE),
-                          "design_ref": f"DESIGN.md section 6 ({pid})"},
+                          "design_ref": f"DESIGN.md section 6 ({pid}) as amended by section 12 (as built)"},
         "level_note": "; ".join(getattr(mod, "ASSUMPTIONS", [])) or "trusted base: the harness in /verif/mc, CPython, networkx",
-        "technique": getattr(mod, "TECHNIQUE", "model checking: exhaustive exploration of the real code (all RNG resolutions / all operation histories / all inputs in a stated box)"),
+        "technique": getattr(mod, "TECHNIQUE", TECH.get(pid, "model checking: exhaustive exploration of the real code")),
     })
 
 manifest = {
